@@ -1338,6 +1338,20 @@ def build_routes(tr):
     return rows
 
 
+RANGE_OPS = ["seek", "read", "peek", "substr", "split_at"]
+
+
+def range_ops(tr):
+    """the range operations of bitstr.rs (every read word goes through them), statement by statement: (function, statement)"""
+    src = tr.source("bitstr.rs")
+    rows = []
+    for name in RANGE_OPS:
+        f = src.find_fn(name, "Bitstr", name)
+        for st in fn_statements(src, f):
+            rows.append((name, st))
+    return rows
+
+
 def reverse_log_sites(tr):
     """every access of `reverse_log` that can change it: (operation, enclosing function), source order (state.rs only:
     the field is public, other files are scanned too)"""
@@ -1457,6 +1471,7 @@ def main(argv):
     calls = table(call_sites, tr, empty=[])
     rlog = table(reverse_log_sites, tr, empty=[])
     routes = table(build_routes, tr, empty={"build_from_source": [], "build_from_file": []})
+    rops = table(range_ops, tr, empty=[])
 
     leaf = [HEADER, "import XehModel.Model.MachineInt\n", "namespace Xeh.Generated\nopen Xeh.MI\n"]
     for _, text in tr.defs:
@@ -1508,6 +1523,9 @@ def main(argv):
                "    with the borrowed log —, enclosing function, file) -/\n"
                "def src_reverse_log_sites : List (String × String × String) := "
                + lean_list([f"({lean_str(a)}, {lean_str(b)}, {lean_str(c)})" for a, b, c in rlog], 1) + "\n")
+    tab.append("/-- the range operations of `Bitstr` (bitstr.rs: " + " ".join(RANGE_OPS) + "), statement by statement: (function, statement) -/\n"
+               "def src_range_ops : List (String × String) := "
+               + lean_list([f"({lean_str(a)}, {lean_str(b)})" for a, b in rops], 1) + "\n")
     tab.append("/-- `State::build_from_source` (eval / compile / evalxstr of a text), statement by statement -/\n"
                "def src_build_from_source : List String := " + lean_list([lean_str(x) for x in routes["build_from_source"]], 1) + "\n")
     tab.append("/-- `State::build_from_file` (eval_file / compile_file), statement by statement -/\n"
